@@ -58,6 +58,9 @@ def sh(cmd, timeout=None, env=None, cwd=None, check=True, capture=True):
 _built = {}
 
 
+DEGRADED = []
+
+
 def build_harness(features="", profile="release"):
     """(Re)build the harness against /repo's current working tree with the hooks on.
     cargo decides what is stale; always invoked."""
@@ -73,7 +76,19 @@ def build_harness(features="", profile="release"):
     t0 = time.time()
     p = sh(cmd, cwd=HARNESS, timeout=1800, check=False)
     if p.returncode != 0:
-        raise ToolError("harness build failed:\n" + p.stdout[-6000:])
+        # the replay modules that drive crate-internal helpers directly (StrainsVec, TandemSorter, LimitedQueue, legacy sort)
+        # are written against their current signatures; when one of them changed in /repo, build without those modules
+        # (cfg verif_degraded) so that every other part of the checks still runs - and say so
+        first = p.stdout
+        tdir = tdir + "-degraded"
+        cmd[cmd.index("--target-dir") + 1] = tdir
+        env = {"RUSTFLAGS": "--cfg rosu_pp_verif --cfg verif_degraded --check-cfg cfg(rosu_pp_verif) --check-cfg cfg(verif_degraded)"}
+        p = sh(cmd, cwd=HARNESS, timeout=1800, check=False, env=env)
+        if p.returncode != 0:
+            raise ToolError("harness build failed:\n" + first[-6000:])
+        DEGRADED.append((features, profile))
+        log("harness [%s/%s] built in DEGRADED mode: a crate-internal API the direct replays use has changed in /repo:\n%s" % (
+            features or "default", profile, "\n".join(l for l in first.splitlines() if l.startswith("error"))[:1500]))
     path = os.path.join(HARNESS, tdir, "release" if profile == "release" else "debug", "verif-harness")
     log("built harness [%s/%s] in %.1fs" % (features or "default", profile, time.time() - t0))
     _built[key] = path
